@@ -1415,7 +1415,14 @@ class Model(Object):
     def __exit__(self, type, value, traceback) -> None:
         """Pop the top context manager and trigger the undo functions."""
         context = self._contexts.pop()
-        context.reset()
+        # The undo operations may call context-aware API themselves. They must
+        # not record new history in an enclosing context, which would be
+        # replayed when that context is left and re-apply the undone change.
+        enclosing, self._contexts = self._contexts, []
+        try:
+            context.reset()
+        finally:
+            self._contexts = enclosing
 
     def merge(
         self,
